@@ -320,7 +320,7 @@ def add_scenarios(repo: Repo) -> RuleRun:
     Mesh._add_vertices always hands over a list (possibly empty), so the mixed use of the
     ``slave_patches=None`` form after a slave duplicate (a path assembly never takes, and which
     creates a fresh master vertex on every call) is deliberately not part of the scenarios."""
-    r = RuleRun(PROP, "C05.ADD-SCENARIOS", floor=10, what="VertexList.add on symbolic insertion sequences: sharing iff same position and same slave-patch set, dense indexes")
+    r = RuleRun(PROP, "C05.ADD-SCENARIOS", floor=9, what="VertexList.add on symbolic insertion sequences: sharing iff same position and same slave-patch set, dense indexes")
     from .c18 import dist_hook
 
     vl_cls = repo.cls("lists.vertex_list.VertexList")
